@@ -33,22 +33,8 @@ fn from_slice_fields() {
     kani::cover!(ss == 4096 && d.len > u32::MAX as usize);
 }
 
-/// C06 obligation: `from_slice` must not panic on any chunk `dirs.chunks(128)` can produce (1..=128 bytes).
-/// EXPECTED TO FAIL (known finding): a directory stream whose length is not a multiple of 128 yields a short last chunk.
-#[kani::proof]
-#[kani::stub(encoding_rs::Encoding::decode, decode_stub)]
-#[kani::unwind(10)]
-fn from_slice_total() {
-    let b: [u8; 128] = kani::any();
-    let n: usize = kani::any();
-    kani::assume(1 <= n && n <= 128);
-    let ss: usize = kani::any();
-    kani::assume(ss == 512 || ss == 4096);
-    let _ = Directory::from_slice(&b[..n], ss);
-}
-
-/// the panic is exactly "chunk shorter than the fields read": with 128 bytes there is none (complete), see from_slice_fields;
-/// below 124 bytes (512-byte sectors) / 128 bytes (4096) it always panics
+/// the `requires buf.len() >= 128` of the Verus contract is necessary: with 128 bytes there is no panic (from_slice_fields),
+/// below 124 bytes (512-byte sectors) / 128 bytes (4096) it always panics. (Cfb::new now feeds it `chunks_exact(128)`.)
 #[kani::proof]
 #[kani::should_panic]
 #[kani::stub(encoding_rs::Encoding::decode, decode_stub)]
@@ -62,14 +48,15 @@ fn from_slice_short_panics() {
     let _ = Directory::from_slice(&b[..n], ss);
 }
 
-/// `to_u32` contract used by Verus (requires len % 4 == 0; yields the little-endian words in order)
+/// `to_u32` contract used by Verus (no precondition; yields the complete little-endian words in order, a trailing remainder is ignored)
 #[kani::proof]
 #[kani::unwind(6)]
 fn to_u32_words() {
     let b: [u8; 12] = kani::any();
-    let k: usize = kani::any();
-    kani::assume(k <= 3);
-    let mut it = to_u32(&b[..4 * k]);
+    let n: usize = kani::any();
+    kani::assume(n <= 12);
+    let k = n / 4;
+    let mut it = to_u32(&b[..n]);
     assert!(it.len() == k);
     let mut i = 0;
     while i < k {
@@ -78,13 +65,5 @@ fn to_u32_words() {
     }
     assert!(it.next().is_none());
     kani::cover!(k == 3);
-}
-/// the documented panic of `to_u32` (its `assert_eq!(s.len() % 4, 0)`): the precondition in the Verus contract is necessary
-#[kani::proof]
-#[kani::should_panic]
-fn to_u32_unaligned_panics() {
-    let b: [u8; 12] = kani::any();
-    let n: usize = kani::any();
-    kani::assume(n <= 12 && n % 4 != 0);
-    let _ = to_u32(&b[..n]);
+    kani::cover!(n % 4 != 0 && k == 2);
 }
